@@ -554,6 +554,23 @@ theorem empty_token_endpoint_is_requested (h : Generated.OAuth.tokenEndpointRequ
     (by decide : Generated.OAuth.tokenEndpointRequired = false →
       Event.token .empty .pre ∈ (authorize wCfg wInp (wWorld { wDoc with tokenEndpoint := .empty })).log) h,
     by decide, by decide⟩
+/-- BOUNDARY of `no_script_scheme_used`: the `resource_metadata` URL of the CHALLENGE is only checked
+with `checkHTTPSOrLoopback`, which admits any scheme on a loopback host — `javascript://localhost/…`
+is fetched through the injected client (a GET; nothing is shown to a browser). The literal reading
+"no script-scheme URL is ever requested" is therefore false of the code; the property as written
+(no URL FIELD OF A METADATA DOCUMENT with such a scheme is used) is what the theorem proves.
+Replayed on the real code by corpus/oauth/02-…ops. -/
+theorem script_challenge_url_is_fetched :
+    ∃ cfg inp w e, e ∈ (authorize cfg inp w).log ∧ e.isRequest = true ∧ e.url.isScript = true ∧
+      cfg.serverUrl.isScript = false :=
+  ⟨wCfg, { wInp with challenges := [{ bearer := true, resourceMetadata := .at ⟨"javascript", true, 0⟩ 9 0 [] }] },
+   wWorld wDoc, .get .prm (.at ⟨"javascript", true, 0⟩ 9 0 []), by decide, by decide, by decide, by decide⟩
+
+/-- BOUNDARY of `failed_check_installs_nothing`: an already-expired token without refresh token is
+installed and `Authorize` then returns the error of the post-installation token read (`post`). -/
+theorem expired_token_installed_then_error :
+    ∃ cfg inp w, (authorize cfg inp w).installed = true ∧ (authorize cfg inp w).outcome = .post :=
+  ⟨wCfg, wInp, { wWorld wDoc with tok := fun _ _ => .goodExpired }, by decide, by decide⟩
 end Witness
 
 end OAuth
